@@ -45,14 +45,18 @@ type Type struct {
 	sp      int
 	fp      []int
 	global  gframe
-	closure []Frame
+	closure []*Frame
 	stack   []value.Type
+	// frefs holds per call frame the frame header shared by the function
+	// values defined in that call; nil until TopRef asks for it. The headers
+	// are re-pointed when the stack is reallocated.
+	frefs []*Frame
 }
 
 // New creates a new memory, with an empty global frame and an empty stack.
 func New() *Type {
 	fp := make([]int, 0, minStackSize)
-	return &Type{fp: fp, global: gframe{}, closure: []Frame{}, stack: []value.Type{}}
+	return &Type{fp: fp, global: gframe{}, closure: []*Frame{}, stack: []value.Type{}}
 }
 
 // Clone does a memory copy for context switching.
@@ -104,13 +108,14 @@ func (m *Type) Clone(reuse *Type) *Type {
 	if reuse != nil {
 		reuse.sp = m.sp - fp
 		reuse.fp = newFP
+		reuse.frefs = append(reuse.frefs[:0], nil)
 		reuse.global = m.global
 		reuse.closure = closure
 		reuse.stack = newStack
 		return reuse
 	}
 
-	return &Type{sp: m.sp - fp, fp: newFP, global: m.global, closure: closure, stack: newStack}
+	return &Type{sp: m.sp - fp, fp: newFP, global: m.global, closure: closure, stack: newStack, frefs: []*Frame{nil}}
 }
 
 // CallDepth is the number of call frames.
@@ -138,7 +143,7 @@ func (m *Type) LookUpLocal(symIdx int) value.Type {
 // LookUpClosure looks up a closure variable. A variable that was local in the
 // containing lexical scope.
 func (m *Type) LookUpClosure(symIdx int) value.Type {
-	return m.closure[len(m.closure)-1][symIdx]
+	return (*m.closure[len(m.closure)-1])[symIdx]
 }
 
 // LookUpGlobal looks up a global variable.
@@ -159,6 +164,7 @@ func (m *Type) PushFrame(argsCnt, localCnt int) {
 	}
 	m.sp += localCnt - argsCnt
 	m.fp = append(m.fp, m.sp-localCnt, m.sp)
+	m.frefs = append(m.frefs, nil)
 }
 
 // Push pushes a value.
@@ -169,7 +175,7 @@ func (m *Type) Push(v value.Type) {
 }
 
 // PushClosure pushes the closure frame.
-func (m *Type) PushClosure(f Frame) {
+func (m *Type) PushClosure(f *Frame) {
 	m.closure = append(m.closure, f)
 }
 
@@ -178,6 +184,7 @@ func (m *Type) PopFrame() {
 	fp := m.fp[len(m.fp)+localFP]
 	m.sp = fp
 	m.fp = m.fp[:len(m.fp)-2]
+	m.frefs = m.frefs[:len(m.frefs)-1]
 }
 
 // Pop pops the last pushed value decrementing the stack pointer.
@@ -201,6 +208,22 @@ func (m *Type) Top() Frame {
 	return m.stack[fp:le]
 }
 
+// TopRef is the frame header of the last stack frame pushed, shared by every
+// function value defined in that call. Unlike a copy of Top it stays valid
+// when the stack is reallocated.
+func (m *Type) TopRef() *Frame {
+	if len(m.fp) < 1 {
+		var f Frame
+		return &f
+	}
+	i := len(m.frefs) - 1
+	if m.frefs[i] == nil {
+		f := m.Top()
+		m.frefs[i] = &f
+	}
+	return m.frefs[i]
+}
+
 // IP returns the function return address.
 func (m *Type) IP() *value.Type {
 	if len(m.fp)+localFE < 0 {
@@ -218,6 +241,12 @@ func (m *Type) ResetSP() {
 func (m *Type) growStack(size int) {
 	if m.sp+size >= len(m.stack) {
 		m.stack = append(m.stack, make([]value.Type, max(minStackSize, size))...)
+		// the stack might have moved, re-point the live frame headers
+		for i, ref := range m.frefs {
+			if ref != nil {
+				*ref = m.stack[m.fp[2*i]:m.fp[2*i+1]]
+			}
+		}
 		verifAfterGrow(m, size)
 	}
 }
@@ -263,6 +292,7 @@ func (m *Type) DumpStack(dbg *dbginfo.Type) {
 // Reset drops all stack local allocations.
 func (m *Type) Reset() {
 	m.sp = 0
-	m.closure = []Frame{}
+	m.closure = []*Frame{}
 	m.fp = []int{}
+	m.frefs = m.frefs[:0]
 }
